@@ -167,7 +167,34 @@ impl Leg for PyAcgt {
     }
 }
 
+/// first calls of a fresh process made by several threads at once (lazily built tables, caches)
+pub struct Cold;
+impl Leg for Cold {
+    type Case = super::coldstart::Case;
+    const NAME: &'static str = "cold-start-threads";
+    fn strategy(_tier: Tier) -> BoxedStrategy<Self::Case> {
+        use super::coldstart::{codes, Op};
+        let op = (1usize..=31)
+            .prop_flat_map(|k| {
+                prop_oneof![
+                    4 => codes(k, 40).prop_map(move |c| Op::RevComp { k, codes: c }),
+                    2 => codes(k, 20).prop_map(move |c| Op::Decode { k, codes: c }),
+                    1 => super::coldstart::small_seq(k).prop_map(move |seq| Op::KmerIter { seq, k }),
+                ]
+            })
+            .boxed();
+        super::coldstart::case_strategy(op)
+    }
+    fn check(c: &Self::Case) -> Verdict {
+        super::coldstart::check(c, "cold-start-wrong-result")
+    }
+}
+
 pub fn run(ctx: &mut Ctx) {
+    let nc = ctx.share(ctx.tier.pick(800, 12_000));
+    ctx.run_leg::<Cold>(nc, false, 40);
+    super::coldstart::infra_inconclusive(ctx);
+
     let n = ctx.share(ctx.tier.pick(30_000, 400_000));
     ctx.run_leg::<PyAcgt>(n, false, 1000);
     // (a) exhaustive codes
@@ -190,6 +217,7 @@ pub fn replay(leg: &str, case: &serde_json::Value) -> Option<Result<Verdict, Str
         "codes-exhaustive" | "codes-sampled" => Some(crate::engine::replay_leg::<Codes>(case)),
         "seq-symmetry" => Some(crate::engine::replay_leg::<Seqs>(case)),
         "python-to-acgt" => Some(crate::engine::replay_leg::<PyAcgt>(case)),
+        "cold-start-threads" => Some(crate::engine::replay_leg::<Cold>(case)),
         _ => None,
     }
 }
